@@ -243,3 +243,8 @@ func lookupConstInt(obj types.Object) (int64, bool) {
 func sortStrings(s []string) { sort.Strings(s) }
 
 type cfgBlock = cfg.Block
+
+const (
+	cfgKindRangeBody = cfg.KindRangeBody
+	cfgKindRangeLoop = cfg.KindRangeLoop
+)
